@@ -387,7 +387,9 @@ class TestCaseExecutor(AbstractTestCaseExecutor):
             thread.join(
                 timeout=min(
                     self._maximum_test_execution_timeout,
-                    self._test_execution_time_per_statement * test_case.size(),
+                    # at least one statement's worth: join(timeout=0) on an empty test case is a
+                    # race between the worker thread and is_alive()
+                    self._test_execution_time_per_statement * max(1, test_case.size()),
                 )
             )
             if thread.is_alive():
